@@ -26,6 +26,10 @@ def check(ctx: Ctx):
         "normal form of the subtracted radii), SphericalDroplet.overlaps (strictness and metric), get_neighbor_distances and from_random."
     )
     col.check_remove_overlapping(ctx)
+    from ..rules import support as _sup_r11
+
+    _sup_r11.check_no_override(ctx, "SphericalDroplet", "overlaps")
+    ctx.expect("OVERRIDE", 1)
     col.check_pairwise(ctx)
     c07.check_overlaps(ctx)
     col.check_neighbor(ctx)
